@@ -114,7 +114,7 @@ def check_c10(ctx):
     ctx.assumptions += ["bounded-exhaustive over a symbolic token alphabet and single edits, not coverage-guided byte fuzzing: inputs whose trigger needs a long specific byte pattern are out of reach",
                         "every stage runs under recover() with a 20 s deadline; batches run in child processes with a 6 GB address-space limit; a batch that dies is bisected to the single input"]
     return ctx.finish("exploration",
-                      "inputs generated by TLC from Frontend.tla: all token strings of length <= 2 (quick) / 3 (thorough) over 58 tokens; delete/duplicate/swap/truncate/replace (28 replacement tokens) at 30 positions of 35 seed programs; 13 kinds of line corruption at 30 positions of 12 seed fact files. "
+                      "inputs generated by TLC from Frontend.tla: all token strings of length <= 2 (quick) / 3 (thorough) over 58 tokens; delete/duplicate/swap/truncate/replace (28 replacement tokens) at 30 positions of 35 seed programs; 13 kinds of line corruption at 30 positions of 14 seed fact files. "
                       "Each input goes through parse.Unit/Clause/Term/BaseTerm/Atom/LiteralOrFormula/PredicateName, AnalyzeAndCheckBounds, EvalProgram under a fact limit, or ReadInto and the lazy store; non-trivial = input that got past the parser (or the .sc header); distinct by input text")
 
 
